@@ -184,3 +184,15 @@ func judgeRaceReports(c *Ctx, res *childResult, kind string, cas any) {
 		}
 	}
 }
+
+// raceLogs reads race-detector logs written by a server started with GORACE log_path=<scratch>/<base>.
+func raceLogs(c *Ctx, base string) {
+	matches, _ := filepath.Glob(filepath.Join(c.Env["VERIF_SCRATCH"], base+".*"))
+	res := &childResult{}
+	for _, m := range matches {
+		tb, _ := os.ReadFile(m)
+		res.RaceReports = append(res.RaceReports, splitRaceReports(string(tb))...)
+	}
+	c.R.Count("race_logs_read", len(matches))
+	judgeRaceReports(c, res, "none", nil)
+}
